@@ -1337,6 +1337,9 @@ func (x *SX) forOnce(v *ast.ForStmt, oc outcome, id int, bump int, extra []types
 			es := after.clone()
 			es.steps = append(es.steps[:len(es.steps)-1], Step{Kind: "loop", Loop: rec, Node: v})
 			es.steps = append(es.steps, p.Steps...)
+			for o, t := range p.Env {
+				es.env[o] = t // what the leaving iteration assigned stays assigned (a caller of an inlined function goes on with it)
+			}
 			if p.Why != "" && es.why == "" {
 				es.why = p.Why
 			}
@@ -1426,6 +1429,9 @@ func (x *SX) rangeOnce(v *ast.RangeStmt, ev evalOut, id int, bump int, extra []t
 		if p.End == "return" || p.End == "panic" {
 			es := after.clone()
 			es.steps = append(es.steps, p.Steps...)
+			for o, t := range p.Env {
+				es.env[o] = t // what the leaving iteration assigned stays assigned (a caller of an inlined function goes on with it)
+			}
 			if p.Why != "" && es.why == "" {
 				es.why = p.Why
 			}
